@@ -40,9 +40,9 @@ def units(tier, seed):
         {"sid": "list", "family": "lists_q", "size": 9 if q else 11, "donor": ("lists_q", 8 if q else 9), "max_slices": 30 if q else 300},
         {"sid": "iso", "family": "iso", "size": 7 if q else 9, "donor": ("iso", 7), "max_slices": 30 if q else 200},
         {"sid": "table", "family": "table", "size": 10 if q else 16, "donor": ("table", 12), "max_slices": 330},
+        {"sid": "strict_hb", "family": "strict", "size": 9 if q else 11, "donor": ("strict", 9), "max_slices": 30 if q else 200},
     ]
     extra = [
-        {"sid": "strict_hb", "family": "strict", "size": 9 if q else 11, "donor": ("strict", 9), "max_slices": 30 if q else 200},
         {"sid": "title", "family": "title", "size": 9 if q else 12, "donor": ("title", 9), "max_slices": 30 if q else 200},
         {"sid": "struct", "family": "struct", "size": 6 if q else 7, "donor": ("struct", 6), "max_slices": 30 if q else 200},
         {"sid": "fixed", "family": "fixed", "size": 10 if q else 14, "donor": ("fixed", 10), "max_slices": 30 if q else 200},
